@@ -176,6 +176,40 @@ def run(tier, seed, replay):
             sf = len(lines)
             lines += gen_scripts.settle_lines(meta)
             out.append(("storm-%d" % i, lines, sf))
+        # an entity is hidden from a client while a mutate message for it is still unacknowledged; the acknowledgement reaches the
+        # server after the tick that processed the hide; later the entity is shown again: it must arrive whole
+        for i in range(30 if tier == "quick" else 1200):
+            pol = rng.choice(["black", "white"])
+            ncl = rng.choice([1, 2])
+            lines = ["cfg policy=%s auth=none track=%d nclients=%d timeout=10000" % (pol, rng.randrange(2), ncl), "start", "sframe 0 10"]
+            for c in range(ncl):
+                lines.append("connect %d 1200" % c)
+            for e in (1, 2):
+                lines.append("sop spawn %d 1 0=%d 1=%d" % (e, rng.randrange(50), rng.randrange(50)))
+                if pol == "white":
+                    for c in range(ncl):
+                        lines.append("sop vis %d %d 1" % (c, e))
+            lines.append("sframe 1 16")
+            for c in range(ncl):
+                lines += ["deliver %d s2c 0 all" % c, "cframe %d" % c, "deliver %d c2s 0 all" % c]
+            val = 100
+            for _ in range(rng.randrange(1, 4)):
+                e = rng.choice([1, 2])
+                val += 1
+                lines += ["sop mutate %d 0=%d" % (e, val), "sframe 1 16", "deliver 0 s2c 1 all", "cframe 0"]      # the ack is now on its way
+                lines.append("sop vis 0 %d 0" % e)
+                if rng.random() < 0.5:
+                    val += 1
+                    lines.append("sop mutate %d 1=%d" % (e, val))                                                   # changes while hidden
+                lines.append("sframe 1 16")
+                lines.append("deliver 0 c2s 0 all")                                                                 # ... and arrives after the hide
+                for _ in range(rng.randrange(1, 3)):
+                    lines.append("sframe 1 16")
+                lines += ["sop vis 0 %d 1" % e, "sframe 1 16", "deliver 0 s2c 0 all", "deliver 0 s2c 1 all", "cframe 0", "deliver 0 c2s 0 all"]
+            meta = dict(connected=list(range(ncl)), events=False)
+            sf = len(lines)
+            lines += gen_scripts.settle_lines(meta)
+            out.append(("late-ack-then-show-%d" % i, lines, sf))
         return out
     o2, d2 = simcheck.sim_collect(rep, "C08", tier, rng, seed, kws, 160, 16000, oracle_props={"C08"}, known_ids=("D22",), custom_scripts=storms,
                                   rule_extra=", both visibility policies with repeated and cancelling set_visibility calls")
